@@ -107,6 +107,7 @@ func gatedLoop(c *Cfg, n int, gen func(i int) *BatchCase, each func(i int, cs *B
 func runC06(c *Cfg) {
 	runSpecial(c, "C06", "nested-stop-mode-batches")
 	runSpecial(c, "C06", "typed-lists-with-nil-entries")
+	runSpecial(c, "C06", "typed-struct-slice-items")
 	r := c.Rep
 	if RaceEnabled {
 		runBatchRace(c, "C06")
@@ -500,6 +501,7 @@ func genItems(rnd interface{ IntN(int) int }, n, budget int, pattern int) []Item
 func runC07(c *Cfg) {
 	runSpecial(c, "C07", "batch-attempts-see-live-context")
 	runSpecial(c, "C07", "typed-lists-with-nil-entries")
+	runSpecial(c, "C07", "fallback-rescues-with-nil")
 	r := c.Rep
 	if RaceEnabled {
 		runBatchRace(c, "C07")
